@@ -48,7 +48,7 @@ def load(prop: str) -> list[dict]:
             for tok in head.split():
                 k, _, val = tok.partition("=")
                 ent[k] = val
-            if ent.get("property") != prop:
+            if prop not in ent.get("property", "").split(","):
                 continue
             assert "id" in ent, line
             for name in filter(None, ent.get("match", "").split(",")):
